@@ -310,6 +310,38 @@ fn p_fwd_asref_ext() {
     kani::cover!(!which && sub == 0, "mut args");
     kani::cover!(!which && sub == 1, "where-clause method with an overridden default body");
 }
+//@ prefix=p_ext kind=property clause=a `#[skip_func]` method (default body over exported neighbours), a `#[wrap_with]`/`#[return_wrap]` associated return (result = the user's conversion of the direct result, applied once) and a user-declared external trait (`#[cglue_trait_ext]`): same result and state as the direct calls
+#[kani::proof]
+#[kani::unwind(9)]
+fn p_ext_skip_wrap() {
+    let (s0, id, a): (State, u64, u64) = kani::any();
+    let m: u8 = kani::any();
+    kani::assume(m < 8);
+    let mut sd = s0;
+    let mut d = Imp { st: &mut sd, id };
+    let r1 = match m {
+        0 => d.k_b(a), 1 => d.k_skip(a), 2 => d.k_a(a), 3 => (d.k_get(a) as u64).rotate_left(7) ^ 0x5A, 4 => d.k_c(a),
+        5 => d.x_b(a), 6 => d.x_a(a), _ => d.x_c(a),
+    };
+    let id1 = d.id;
+    core::mem::forget(d);
+    let mut st = s0;
+    let mut imp = Imp { st: &mut st, id };
+    let r2 = if m < 5 {
+        let o = trait_obj!(&imp as TK);
+        match m { 0 => o.k_b(a), 1 => o.k_skip(a), 2 => o.k_a(a), 3 => o.k_get(a), _ => o.k_c(a) }
+    } else {
+        let mut o = trait_obj!(&mut imp as TX);
+        match m { 5 => TX::x_b(&o, a), 6 => TX::x_a(&mut o, a), _ => TX::x_c(&o, a) }
+    };
+    assert!(r1 == r2, "C01 same result as the direct call (skip_func / return_wrap / user external trait)");
+    assert!(imp.id == id1, "C01 same instance updated as by the direct call (user external trait)");
+    core::mem::forget(imp);
+    assert!(st == sd, "C01 same instance state as after the direct call (skip_func / return_wrap / user external trait)");
+    kani::cover!(m == 1, "skipped method");
+    kani::cover!(m == 3, "return_wrap");
+    kani::cover!(m == 6, "external trait, &mut");
+}
 //@ prefix=p_grp kind=property clause=group object and successful casts of it (cast!, as_ref!, as_mut!, into!): mandatory and optional trait methods satisfy the same contract, on the same instance
 #[kani::proof]
 #[kani::unwind(9)]
